@@ -117,6 +117,7 @@ type vWorld struct {
 	tcp      []*vObsTCP
 	conns    map[int]*vInConn
 	dials    int
+	wedged   bool
 }
 
 var vW *vWorld
@@ -132,6 +133,10 @@ func (w *vWorld) close() {
 			a.c.Close()
 		}
 		t.Unlock()
+	}
+	if w.wedged {
+		// a wedged loop may hold the transport table's lock for ever
+		return
 	}
 	// outbound connections dialed by the proxies' transports
 	for _, p := range w.proxies {
@@ -181,14 +186,27 @@ func items(s string) [][]string {
 	return out
 }
 
-func (w *vWorld) barrier(p *Proxy) {
-	deadline := time.Now().Add(5 * time.Second)
+// barrier: wait until the proxy's loop goroutine has finished everything queued so far. If the loop
+// does not come back within a few seconds it is wedged (deadlock, endless loop): the world is
+// marked as wedged and every later op of the case reports it at once.
+func (w *vWorld) barrier(p *Proxy) bool {
+	if w.wedged {
+		return false
+	}
+	deadline := time.Now().Add(4 * time.Second)
 	for (len(p.msgChannel) > 0 || len(p.backendChangeChannel) > 0) && time.Now().Before(deadline) {
 		time.Sleep(5 * time.Microsecond)
 	}
 	b := &vInConn{id: -1, remote: vBarrierAddr{}, local: vBarrierAddr{}, sink: &w.sink}
-	p.ConnectionAccepted(b)
-	p.ConnectionAccepted(b)
+	for i := 0; i < 2; i++ {
+		select {
+		case p.connAcceptedChannel <- b:
+		case <-time.After(4 * time.Second):
+			w.wedged = true
+			return false
+		}
+	}
+	return true
 }
 
 func (w *vWorld) transKeys(p *Proxy) map[string]string {
@@ -418,10 +436,15 @@ func init() {
 			msg.ReceivedFrom = from
 			raw.TcpConn = c
 		}
+		if w.wedged {
+			return "stalled"
+		}
 		before := w.transKeys(p)
 		w.sink = w.sink[:0]
 		p.HandleRawMessage(raw)
-		w.barrier(p)
+		if !w.barrier(p) {
+			return "stalled"
+		}
 		var out []string
 		for _, s := range w.sink {
 			if strings.HasPrefix(s, "C ") {
@@ -455,58 +478,77 @@ func init() {
 	})
 	// pipe rawd: the same three calls the loop makes, made directly from the harness goroutine so that a
 	// panic anywhere in the pipeline is caught and attributed to this input (hostile-input stream, C08).
-	vReg("pipe rawd", func(a []string) (res string) {
+	vReg("pipe rawd", func(a []string) string {
 		w := vW
 		m := kv(a)
 		i, _ := strconv.Atoi(m["p"])
 		p := w.proxies[i]
-		w.barrier(p)
+		if !w.barrier(p) {
+			return "stalled"
+		}
 		from, rcvd := parseListener(m["from"])
 		data := []byte(unhx(m["msg"]))
-		var ms0, ms1 runtime.MemStats
-		runtime.ReadMemStats(&ms0)
-		defer func() {
-			if r := recover(); r != nil {
-				res = "panic " + strings.ReplaceAll(strings.ReplaceAll(fmt.Sprintf("%v", r), " ", "_"), "\n", "_")
+		done := make(chan string, 1)
+		// the pipeline runs on its own goroutine so that a deadlock or an endless loop in it is
+		// observed as "stalled" instead of hanging the whole harness
+		go func() {
+			res := ""
+			var ms0, ms1 runtime.MemStats
+			runtime.ReadMemStats(&ms0)
+			defer func() {
+				if r := recover(); r != nil {
+					res = "panic " + strings.ReplaceAll(strings.ReplaceAll(fmt.Sprintf("%v", r), " ", "_"), "\n", "_")
+				}
+				done <- res
+			}()
+			msg, err := ParseMessage(bufio.NewReaderSize(bytes.NewBuffer(data), len(data)))
+			outcome := "parse-error"
+			if err == nil {
+				port, _ := strconv.Atoi(m["port"])
+				raw := NewRawMessage(unhx(m["peer"]), port, from, rcvd, msg)
+				if m["tcp"] != "-" {
+					id, _ := strconv.Atoi(m["tcp"])
+					c, ok := w.conns[id]
+					if !ok {
+						c = &vInConn{id: id, sink: &w.sink, remote: &net.TCPAddr{IP: net.ParseIP(unhx(m["peer"])), Port: port}, local: &net.TCPAddr{IP: net.ParseIP(from.addr), Port: from.port}}
+						w.conns[id] = c
+					}
+					msg.ReceivedFrom = from
+					raw.TcpConn = c
+				}
+				w.sink = w.sink[:0]
+				m2, err := p.handleRawMessage(raw)
+				if err == nil {
+					p.handleDialog(raw.PeerAddr, raw.PeerPort, m2)
+					p.HandleMessage(m2)
+				}
+				outcome = "processed sends=" + strconv.Itoa(len(w.sink)+len(w.collect()))
+			}
+			runtime.ReadMemStats(&ms1)
+			alloc := ms1.TotalAlloc - ms0.TotalAlloc
+			bound := uint64(256*len(data) + 4*1024*1024)
+			if alloc > bound {
+				res = outcome + " alloc=big:" + strconv.FormatUint(alloc, 10)
+			} else {
+				res = outcome + " alloc=ok"
 			}
 		}()
-		msg, err := ParseMessage(bufio.NewReaderSize(bytes.NewBuffer(data), len(data)))
-		outcome := "parse-error"
-		if err == nil {
-			port, _ := strconv.Atoi(m["port"])
-			raw := NewRawMessage(unhx(m["peer"]), port, from, rcvd, msg)
-			if m["tcp"] != "-" {
-				id, _ := strconv.Atoi(m["tcp"])
-				c, ok := w.conns[id]
-				if !ok {
-					c = &vInConn{id: id, sink: &w.sink, remote: &net.TCPAddr{IP: net.ParseIP(unhx(m["peer"])), Port: port}, local: &net.TCPAddr{IP: net.ParseIP(from.addr), Port: from.port}}
-					w.conns[id] = c
-				}
-				msg.ReceivedFrom = from
-				raw.TcpConn = c
-			}
-			w.sink = w.sink[:0]
-			m2, err := p.handleRawMessage(raw)
-			if err == nil {
-				p.handleDialog(raw.PeerAddr, raw.PeerPort, m2)
-				p.HandleMessage(m2)
-			}
-			outcome = "processed sends=" + strconv.Itoa(len(w.sink)+len(w.collect()))
+		select {
+		case r := <-done:
+			return r
+		case <-time.After(8 * time.Second):
+			w.wedged = true
+			return "stalled"
 		}
-		runtime.ReadMemStats(&ms1)
-		alloc := ms1.TotalAlloc - ms0.TotalAlloc
-		bound := uint64(256*len(data) + 4*1024*1024)
-		if alloc > bound {
-			return outcome + " alloc=big:" + strconv.FormatUint(alloc, 10)
-		}
-		return outcome + " alloc=ok"
 	})
 	vReg("pipe state", func(a []string) string {
 		w := vW
 		m := kv(a)
 		i, _ := strconv.Atoi(m["p"])
 		p := w.proxies[i]
-		w.barrier(p)
+		if !w.barrier(p) {
+			return "stalled"
+		}
 		var learned []string
 		for h, t := range w.learn.route {
 			learned = append(learned, hx(h)+"="+hx(fmt.Sprintf("%s:%s:%d", t.GetProtocol(), t.GetAddress(), t.GetPort())))
